@@ -18,6 +18,7 @@ import (
 	"strconv"
 	"strings"
 	"sync"
+	"sync/atomic"
 	"time"
 )
 
@@ -145,8 +146,13 @@ func WorkerMain(specJSON string) {
 		// run the case in its own goroutine: a panic of the code under test
 		// must kill the process at once (no recovery by the testing package).
 		ch := make(chan Result, 1)
+		t0 := time.Now()
 		go func() { ch <- src.Run(i) }()
 		r := <-ch
+		if r.Counters == nil {
+			r.Counters = map[string]int64{}
+		}
+		r.Counters["_case_ms"] = time.Since(t0).Milliseconds()
 		b, _ := json.Marshal(r)
 		fmt.Fprintf(w, "R %d %s\n", i, b)
 		w.Flush()
@@ -177,6 +183,7 @@ type agg struct {
 	partTotals  map[string]int
 	partDone    map[string]int
 	crashes     int64
+	maxCaseMs   int64
 	exhaustive  bool
 	deadlineHit bool
 }
@@ -193,6 +200,12 @@ func (a *agg) add(part string, idx int, r Result) {
 		a.outcomes[r.Outcome]++
 	}
 	for k, v := range r.Counters {
+		if k == "_case_ms" {
+			if v > a.maxCaseMs {
+				a.maxCaseMs = v
+			}
+			continue
+		}
 		a.counters[k] += v
 	}
 	if r.Inconcl != "" {
@@ -442,13 +455,23 @@ func budget(tier string) time.Duration {
 	return 8 * time.Minute
 }
 
+// hangsSeen counts hung cases in this run; once one was seen the run is
+// abnormal anyway and the remaining cases get a short fuse so that the run
+// still ends in reasonable time. Confirmation re-runs always use the full one.
+var hangsSeen atomic.Int64
+var fullFuse atomic.Bool
+
 func caseTimeout() time.Duration {
+	d := 100 * time.Second
 	if v := os.Getenv("VERIF_CASE_TIMEOUT_S"); v != "" {
 		if n, err := strconv.Atoi(v); err == nil {
-			return time.Duration(n) * time.Second
+			d = time.Duration(n) * time.Second
 		}
 	}
-	return 180 * time.Second
+	if hangsSeen.Load() > 0 && !fullFuse.Load() && d > 15*time.Second {
+		d = 15 * time.Second
+	}
+	return d
 }
 
 // Check runs a property check end to end and returns the process exit code.
@@ -596,6 +619,9 @@ func Check(id, tier string) int {
 		if gi < 8 {
 			// re-run the single case 3x in fresh workers; it must fail again.
 			okc, total := 0, 3
+			if g.first.Res.Fail.Symptom == "hang" {
+				total = 2
+			}
 			for k := 0; k < total; k++ {
 				if rerunFails(bin, raceBin, p, tier, g.first) {
 					okc++
@@ -640,6 +666,7 @@ func Check(id, tier string) int {
 		"known_finding_cases": len(a.fails) - len(violations),
 		"inconclusive":        a.inconcl,
 		"worker_crashes":      a.crashes,
+		"max_case_ms":         a.maxCaseMs,
 	}
 	if len(a.inconclEx) > 0 {
 		cov["inconclusive_examples"] = a.inconclEx
@@ -734,7 +761,10 @@ func runShard(bin string, spec workerSpec, a *agg, deadline time.Time, onN func(
 			return
 		}
 		if err != nil && err.Error() == "hang" && crashedAt >= 0 {
-			a.add(spec.Part, crashedAt, Result{Case: fmt.Sprintf("%s#%d", spec.Part, crashedAt), Outcome: "hang", Inconcl: fmt.Sprintf("no progress for %v; worker killed (safety net, not an oracle)", caseTimeout())})
+			to := caseTimeout()
+			hangsSeen.Add(1)
+			a.add(spec.Part, crashedAt, Result{Case: fmt.Sprintf("%s#%d (worker made no progress; use ./run replay to see the case)", spec.Part, crashedAt), Outcome: "hang", Nontrivial: true,
+				Fail: &Failure{Symptom: "hang", Features: map[string]string{}, Detail: fmt.Sprintf("the case made no progress for %v and its worker was killed; reported only if the same case hangs again in isolated re-runs with the full time limit\n%s", to, lastLines(tail, 8))}})
 			if spec.Only >= 0 {
 				return
 			}
@@ -780,6 +810,10 @@ func runShard(bin string, spec workerSpec, a *agg, deadline time.Time, onN func(
 }
 
 func rerunFails(bin, raceBin string, p *Prop, tier string, cf caseFail) bool {
+	if cf.Res.Fail.Symptom == "hang" {
+		fullFuse.Store(true)
+		defer fullFuse.Store(false)
+	}
 	a := &agg{outcomes: map[string]int64{}, counters: map[string]int64{}, partTotals: map[string]int{}, partDone: map[string]int{}}
 	wbin := bin
 	for _, pt := range p.Parts(tier) {
